@@ -4,10 +4,12 @@ import collections
 import corner_gen
 import lua_run
 import prog_gen
+import resolved_io
+import rustdebug
 import vlib
 from props import c10
 
-GEN = []
+GEN = ["GenSrcDigest"]
 TRUSTED = [
     "Coq 8.16.1 kernel; no axioms",
     "coq/Back/IR.v + Back/Emit.v as the model of intermediate.rs + lua.rs (byte-exact tie each run, fed with the real resolver output through the phases hook)",
@@ -42,6 +44,68 @@ def gen_cases(ctx):
         src = prog_gen.program(vlib.rng(ctx.seed, "c06-%d" % i), 3)
         out.append(("gen", src, "nostd\t/main.sy\t/main.sy=%s" % vlib.hexs(src)))
     return out + c10.test_programs()
+
+
+_KIND = {"Loop": "L", "Break": "B", "Else": "X", "End": "E", "If": "I", "Function": "F"}
+
+
+def ir_kinds(ir_dump):
+    """the phases hook's `{:?}` dump of the real Vec<IR> -> the instruction kinds the control-flow checker looks at"""
+    out = []
+    for op in rustdebug.parse(ir_dump):
+        name = op if isinstance(op, str) else op["_"]
+        if name in ("Label", "Goto"):
+            lab = op["args"][0]
+            n = lab["args"][0] if isinstance(lab, dict) else lab
+            out.append(("l" if name == "Label" else "g") + str(int(n)))
+        else:
+            out.append(_KIND.get(name, "."))
+    return " ".join(out)
+
+
+def control_flow(ctx, cases, rows):
+    """C06_control_flow_ok on every accepted program of the tie: the hypothesis loops_ok on the real resolver's output,
+    the conclusion ir_cf_ok on the model's IR (both by the extracted code inside the back driver) and ir_cf_ok of the
+    extracted checker on the instruction kinds of the REAL IR dump (phases hook)."""
+    st = {"evaluated": 0, "loops_ok_false": 0, "ir_cf_ok_false_model_ir": 0, "real_ir_evaluated": 0, "ir_cf_ok_false_real_ir": 0,
+          "real_ir_unreadable": 0, "programs_with_loops": 0, "programs_with_goto": 0}
+    ph = getattr(ctx, "last_phases", None) or []
+    cf_lines, cf_idx = [], []
+    for i, m, body, ok_pre in rows:
+        parts = m.split(" ")
+        src = cases[i][1][:300].replace("\n", "\\n")
+        if parts[0] == "OK" and len(parts) >= 6:
+            st["evaluated"] += 1
+            if parts[5] != "LOOPSOK":
+                st["loops_ok_false"] += 1
+                if st["loops_ok_false"] <= 3:
+                    # the hypothesis of C06_control_flow_ok fails on a program the real compiler accepts: the theorem says nothing here
+                    ctx.brk("hypothesis:loops_ok", "accepted by the real compiler with a break/continue outside a loop body of its function: " + src)
+            if parts[4] != "CFOK":
+                st["ir_cf_ok_false_model_ir"] += 1
+                if st["ir_cf_ok_false_model_ir"] <= 3:
+                    ctx.brk("model:ir_cf_ok", "%s (IR instruction index) on the model's IR: %s" % (parts[4], src))
+        if i < len(ph):
+            d, tail = resolved_io.parse_phases_line(ph[i])
+            if "ir" in d:
+                try:
+                    cf_lines.append("@cf\t" + ir_kinds(d["ir"]))
+                    cf_idx.append(i)
+                except Exception:
+                    st["real_ir_unreadable"] += 1
+    if cf_lines:
+        for i, line, v in zip(cf_idx, cf_lines, vlib.model(c10._m["exe"], [], cf_lines)):
+            st["real_ir_evaluated"] += 1
+            st["programs_with_loops"] += 1 if " L " in " " + line.split("\t")[1] + " " else 0
+            st["programs_with_goto"] += 1 if " g" in " " + line.split("\t")[1] else 0
+            if v != "CFOK":
+                st["ir_cf_ok_false_real_ir"] += 1
+                if st["ir_cf_ok_false_real_ir"] <= 3:
+                    ctx.brk("oracle:ir_cf_ok(real IR)", "%s on the real compiler's IR (break outside a loop / goto without a visible label / "
+                            "misplaced or duplicate label / unbalanced): %s" % (v, cases[i][1][:300].replace("\n", "\\n")))
+    if st["real_ir_unreadable"]:
+        ctx.brk("tie:real-ir-dump", "%d IR dumps of the phases hook could not be read" % st["real_ir_unreadable"])
+    return st
 
 
 def classify(reason):
@@ -86,6 +150,7 @@ def tie(ctx):
     for i, why in bad[:4]:
         ctx.brk("oracle:lua_wf", "%s: %s" % (why, cases[i][1][:300].replace("\n", "\\n")))
     dist["accepted"] = len(rows)
+    cf = control_flow(ctx, cases, rows)
     outcome = collections.Counter(r.split(" ")[0] for r in real)
     samples = [{"class": cases[i][0], "program": cases[i][1][:300], "lua_wf": reasons[j] or "ok"} for j, (i, _) in enumerate(texts[:3])]
     return {"name": "lua-text", "ok": not mism, "mismatches": mism, "evaluations": len(cases), "distinct_nontrivial": len(set(t for _, t in texts)),
@@ -94,7 +159,7 @@ def tie(ctx):
                     "every program under /repo/tests; non-trivial = accepted by the real compiler; distinct by emitted text",
             "samples": samples or ["<none>"],
             "distribution": {"classes": dict(dist), "real_outcomes": dict(outcome), "not_loadable": len(bad),
-                             "known_finding_hits": dict(known),
+                             "known_finding_hits": dict(known), "control_flow": cf,
                              "luajit_only_rejections": sum(1 for a, b in zip(reasons, jit) if a is None and b is not None)}}
 
 
